@@ -1,8 +1,10 @@
 ------------------------------ MODULE ReadOnly ------------------------------
 (* C17: reads never modify data; databases change only through the log.                           *)
 (*                                                                                                *)
-(* One request = one SQL text of a statement class, sent to an endpoint at a consistency level    *)
-(* to a node of some role.  The spec follows it through the code's own steps                      *)
+(* One request = a SEQUENCE of SQL texts, each of a statement class (a query-endpoint request      *)
+(* carries one; a unified request 1..MaxLen, with or without the transaction flag), sent to an    *)
+(* endpoint at a consistency level to a node of some role.  The spec follows it through the       *)
+(* code's own steps                                                                               *)
 (*   http/service.go handleQuery / handleRequest (sql.Process sets the EXPLAIN flag)              *)
 (*   -> proxy (a request the receiving node may not serve is forwarded to the leader)             *)
 (*   -> store/store.go Query / Request (RORWCount classifies each statement of a unified          *)
@@ -10,8 +12,10 @@
 (*   -> db/db.go QueryWithContext (read-only pool: mode=ro + query_only) or, for a log entry      *)
 (*      applied by the FSM of EVERY node, db.Query (pool) / db.Request (read-write connection:    *)
 (*      each statement classified again; read-only -> the driver's query loop, which steps only   *)
-(*      the LAST statement of a text; read-write -> the exec loop, which steps every statement)   *)
-(* and records which node's database the text changed.                                            *)
+(*      the LAST statement of a text; read-write -> the exec loop, which steps every statement;   *)
+(*      the statements of one request run one after the other on ONE connection, so whatever a    *)
+(*      statement leaves behind on the connection is met by the next)                             *)
+(* and records which node's database which STATEMENT of the request changed.                      *)
 (*                                                                                                *)
 (* Switches (TRUE = the design):                                                                  *)
 (*   ROPool              connections of the read-only pool refuse every write                     *)
@@ -24,14 +28,24 @@
 (*                       writing tail -- or a PRAGMA optimize that SQLite reports as read-only -- *)
 (*                       fails instead of changing the database.  FALSE: the verdict on the head  *)
 (*                       decides and the rest of the text runs unchecked                          *)
+(*   GuardEveryROStmt    the write guard is established for EVERY statement DB.Request classifies *)
+(*                       as read-only, and lifted after it, whatever ran before it in the same    *)
+(*                       request: whether a statement is guarded depends on its own verdict only, *)
+(*                       never on the history of the connection.  FALSE: the guard is kept as     *)
+(*                       state across the statements of the request -- established when the first *)
+(*                       read-only statement is met, lifted when a read-write statement needs the *)
+(*                       connection, and then believed to be still in place: a read-only          *)
+(*                       statement after [read-only .. read-write] runs unguarded                 *)
 (*   LocalReadsOnROPool  reads served without the log use the pool (FALSE: the read-write         *)
 (*                       connection)                                                              *)
 (*   StrongQueryOnROPool a QUERY log entry is executed on the pool by every node (FALSE: on the   *)
 (*                       read-write connection)                                                   *)
-EXTENDS Naturals, Sequences, FiniteSets, TLC, Json
+EXTENDS Integers, Sequences, FiniteSets, TLC, Json
 
-CONSTANTS ROPool, ClassifyWholeText, LocalReadsOnROPool, StrongQueryOnROPool,
-          Nodes          \* node ids
+CONSTANTS ROPool, ClassifyWholeText, GuardEveryROStmt, LocalReadsOnROPool, StrongQueryOnROPool,
+          Nodes,         \* node ids
+          SeqClasses,    \* the statement classes unified requests of 2..MaxLen statements are built from (all orders, repeats)
+          MaxLen         \* longest unified request
 
 (* ------------------------------------------------------------------ statement classes ------    *)
 (* headRO : sqlite3_stmt_readonly of the first statement of the text                              *)
@@ -51,7 +65,8 @@ ClassAttr ==
   [c \in {"explain-ro-head-rw-tail"} |-> Attr(TRUE, TRUE, FALSE, TRUE, TRUE)] @@
   [c \in {"explain-rw-head-rw-tail"} |-> Attr(FALSE, TRUE, FALSE, TRUE, TRUE)] @@
   [c \in {"insert-returning"} |-> Attr(FALSE, FALSE, TRUE, TRUE, TRUE)] @@
-  [c \in {"pragma-write", "ddl", "with-insert"} |-> Attr(FALSE, FALSE, FALSE, TRUE, TRUE)] @@
+  \* "write": a plain single INSERT (the genuine write of a mixed request)
+  [c \in {"write", "pragma-write", "ddl", "with-insert"} |-> Attr(FALSE, FALSE, FALSE, TRUE, TRUE)] @@
   \* plain PRAGMA optimize with ONE table to analyse: sqlite3_stmt_readonly says read-only (no write transaction is
   \* compiled in), yet it runs ANALYZE through OP_SqlExec; with the 0x10000 bit (all tables) it is reported read-write
   [c \in {"pragma-optimize"} |-> Attr(TRUE, FALSE, FALSE, TRUE, TRUE)] @@
@@ -60,48 +75,85 @@ ClassAttr ==
   [c \in {"pragma-incr-vacuum", "create-temp"} |-> Attr(FALSE, FALSE, FALSE, FALSE, FALSE)]
 Classes == DOMAIN ClassAttr
 
-Endpoints == {"qpost", "qget", "ralone", "rwrite"}     \* /db/query POST, /db/query GET ?q=, /db/request alone, /db/request + a genuine write
+Endpoints == {"qpost", "qget", "req"}     \* /db/query POST, /db/query GET ?q=, /db/request (unified: a sequence of statements)
 Levels == {"none", "weak", "strong", "linearizable"}
 Roles == {"leader", "follower"}
 IsQuery(ep) == ep \in {"qpost", "qget"}
 
-(* up: a linearizable read is upgraded to a strong read (first one in the leader's term)          *)
-Case == [class : Classes, ep : Endpoints, level : Levels, role : Roles, up : BOOLEAN]
+RECURSIVE SeqsOf(_, _)
+SeqsOf(S, k) == IF k = 0 THEN {<<>>} ELSE {Append(s, a) : s \in SeqsOf(S, k - 1), a \in S}
+(* the statement sequences of a unified request: every class alone; every class before and after a genuine    *)
+(* write; every sequence of 2..MaxLen statements over SeqClasses (every order, with repeats)                   *)
+ReqSeqs == {<<a>> : a \in Classes} \cup {<<a, "write">> : a \in Classes} \cup {<<"write", a>> : a \in Classes}
+           \cup UNION {SeqsOf(SeqClasses, k) : k \in 2..MaxLen}
+
+(* up: a linearizable read is upgraded to a strong read (first one in the leader's term); tx: ?transaction    *)
+Case == [ep : {"qpost", "qget"}, stmts : {<<a>> : a \in Classes}, tx : {FALSE}, level : Levels, role : Roles, up : BOOLEAN]
+        \cup [ep : {"req"}, stmts : ReqSeqs, tx : BOOLEAN, level : Levels, role : Roles, up : BOOLEAN]
 ValidCase(c) == c.up => c.level = "linearizable"
+AllCases == {x \in Case : ValidCase(x)}
+Pos(c) == 1..Len(c.stmts)
 
 (* ------------------------------------------------------------------ classification ---------    *)
+(* per STATEMENT, from its own text only *)
 StoreRO(cl) == ClassAttr[cl].expl \/ ClassAttr[cl].headRO      \* Store.RORWCount: decides the route
 DbRO(cl)    == ClassAttr[cl].expl \/ ClassAttr[cl].headRO      \* DB.Request, on the read-write connection of every node
 (* what the property calls a read: every query-endpoint request, and a statement a unified request treats as read-only*)
-TreatedRO(c) == IsQuery(c.ep) \/ StoreRO(c.class) \/ DbRO(c.class)
+TreatedRO(c, i) == IsQuery(c.ep) \/ StoreRO(c.stmts[i]) \/ DbRO(c.stmts[i])
 
 (* ------------------------------------------------------------------ dispatch ---------------    *)
 (* Store.Request on a FOLLOWER runs the linearizable pre-check first; a follower never served a strong read in*)
 (* the current term, so it rewrites the level of the request to strong, then finds it is not the leader, and*)
 (* the proxy forwards the rewritten request.  (Store.Query keeps the level in a local variable.)  *)
 EffLevel(c) == IF c.level = "linearizable" /\ (c.up \/ (~IsQuery(c.ep) /\ c.role = "follower")) THEN "strong" ELSE c.level
-NRW(c) == (IF c.ep = "rwrite" THEN 1 ELSE 0) + (IF ~IsQuery(c.ep) /\ ~StoreRO(c.class) THEN 1 ELSE 0)
+NRW(c) == IF IsQuery(c.ep) THEN 0 ELSE Cardinality({i \in Pos(c) : ~StoreRO(c.stmts[i])})
+NRO(c) == IF IsQuery(c.ep) THEN 0 ELSE Cardinality({i \in Pos(c) : StoreRO(c.stmts[i])})
 (* the kind of log entry the request becomes: "none" = served without the log                     *)
 Entry(c) == IF IsQuery(c.ep) THEN (IF EffLevel(c) = "strong" THEN "QUERY" ELSE "none")
             ELSE IF NRW(c) = 0 /\ EffLevel(c) # "strong" THEN "none" ELSE "EXECUTE_QUERY"
 (* the node that serves it: only a level-none read stays on a follower                            *)
 ServedBy(c) == IF c.role = "follower" /\ Entry(c) = "none" /\ c.level = "none" THEN "follower" ELSE "leader"
 
-(* effect of the text on one node's main database, by the connection that runs it                 *)
-OnPool(cl) == ~ROPool /\ ClassAttr[cl].effQ
-OnRW(cl) == IF DbRO(cl) THEN ~ClassifyWholeText /\ ClassAttr[cl].effQ       \* query loop, writes disabled
-            ELSE IF ClassAttr[cl].fq THEN ClassAttr[cl].effQ ELSE ClassAttr[cl].effX
-OnRWQueryLoop(cl) == ClassAttr[cl].effQ        \* a read routed to the read-write connection (switch off)
+(* ------------------------------------------------------------------ one connection runs the statements -- *)
+(* conn: "pool" a connection of the read-only pool (db.Query: every statement through the query loop);       *)
+(*       "rwq"  the read-write connection used like the pool (a read routed there: switches off);            *)
+(*       "rw"   the read-write connection under DB.Request (each statement classified, guarded if read-only) *)
+(* h = the statements of the request that ran on the connection before this one.  The design never looks at  *)
+(* it; with GuardEveryROStmt off the guard set for an earlier read-only statement and lifted for a later      *)
+(* read-write one is believed to be still there                                                              *)
+Guarded(h) == GuardEveryROStmt \/ ~(\E j \in 1..Len(h) : \E k \in (j + 1)..Len(h) : DbRO(h[j]) /\ ~DbRO(h[k]))
+(* attempt: the statement, run this way, writes to the main database; refused: the connection refuses writes  *)
+Outcome(conn, ss, i) ==
+  LET a == ClassAttr[ss[i]] IN
+  IF conn = "pool" THEN [attempt |-> a.effQ, refused |-> ROPool]
+  ELSE IF conn = "rwq" THEN [attempt |-> a.effQ, refused |-> FALSE]
+  ELSE IF DbRO(ss[i]) THEN [attempt |-> a.effQ, refused |-> ClassifyWholeText /\ Guarded(SubSeq(ss, 1, i - 1))]   \* query loop, writes disabled
+  ELSE [attempt |-> IF a.fq THEN a.effQ ELSE a.effX, refused |-> FALSE]
+(* the loop of db.Query / db.Request over the statements: a refused write is that statement's error.  Inside a *)
+(* transaction db.Request rolls everything back at the first error and ends the request; db.Query (pool) goes  *)
+(* on with the next statement and commits                                                                    *)
+Acc0 == [hit |-> {}, failed |-> {}, ran |-> {}]
+RECURSIVE Exec(_, _, _, _, _)
+Exec(conn, ss, tx, i, acc) ==
+  IF i > Len(ss) THEN acc
+  ELSE LET o == Outcome(conn, ss, i) IN
+       IF o.attempt /\ o.refused
+       THEN IF tx /\ conn = "rw" THEN [hit |-> {}, failed |-> acc.failed \cup {i}, ran |-> acc.ran \cup {i}]
+            ELSE Exec(conn, ss, tx, i + 1, [hit |-> acc.hit, failed |-> acc.failed \cup {i}, ran |-> acc.ran \cup {i}])
+       ELSE Exec(conn, ss, tx, i + 1, [hit |-> acc.hit \cup (IF o.attempt THEN {i} ELSE {}), failed |-> acc.failed, ran |-> acc.ran \cup {i}])
+Run(conn, c) == Exec(conn, c.stmts, c.tx, 1, Acc0)
+ConnLocal == IF LocalReadsOnROPool THEN "pool" ELSE "rwq"
+ConnEntry(e) == IF e = "QUERY" THEN (IF StrongQueryOnROPool THEN "pool" ELSE "rwq") ELSE "rw"
 
 (* ------------------------------------------------------------------ the request, step by step   *)
 VARIABLES c,         \* the case
           pc,        \* "recv" -> "local" | "proposed" -> "done"
           entry,     \* log entry kind
           applied,   \* nodes whose FSM applied the entry
-          changed    \* nodes whose main database the TEXT changed (the genuine write of rwrite is not counted)
+          changed    \* <<n, i>>: statement i of the request changed the main database of node n
 vars == <<c, pc, entry, applied, changed>>
 
-Init == /\ c \in {x \in Case : ValidCase(x)}
+Init == /\ c \in AllCases
         /\ pc = "recv" /\ entry = "none" /\ applied = {} /\ changed = {}
 
 (* Store.Query / Store.Request decide *)
@@ -112,19 +164,14 @@ Dispatch == /\ pc = "recv"
 
 (* served by one node without the log *)
 ServeLocal == /\ pc = "local"
-              /\ \E n \in Nodes :
-                   LET hit == IF LocalReadsOnROPool THEN OnPool(c.class) ELSE OnRWQueryLoop(c.class) IN
-                   changed' = IF hit THEN changed \cup {n} ELSE changed
+              /\ \E n \in Nodes : changed' = changed \cup ({n} \X Run(ConnLocal, c).hit)
               /\ pc' = "done"
               /\ UNCHANGED <<c, entry, applied>>
 
-(* the FSM of node n applies the committed entry *)
+(* the FSM of node n applies the committed entry: the whole request, on one connection of that node *)
 Apply(n) == /\ pc = "proposed" /\ n \notin applied
             /\ applied' = applied \cup {n}
-            /\ LET hit == IF entry = "QUERY"
-                          THEN (IF StrongQueryOnROPool THEN OnPool(c.class) ELSE OnRWQueryLoop(c.class))
-                          ELSE OnRW(c.class) IN
-               changed' = IF hit THEN changed \cup {n} ELSE changed
+            /\ changed' = changed \cup ({n} \X Run(ConnEntry(entry), c).hit)
             /\ pc' = IF applied' = Nodes THEN "done" ELSE pc
             /\ UNCHANGED <<c, entry>>
 
@@ -133,27 +180,33 @@ Spec == Init /\ [][Next]_vars
 
 (* ------------------------------------------------------------------ the property -----------    *)
 (* sentence 1: no read changes the database of any node *)
-NoChangeByRead == changed # {} => ~TreatedRO(c)
+NoChangeByRead == \A p \in changed : ~TreatedRO(c, p[2])
 (* sentence 2: a database changes only by applying a committed log entry (here: one that carries writes)*)
-OnlyThroughLog == \A n \in changed : entry = "EXECUTE_QUERY" /\ n \in applied
+OnlyThroughLog == \A p \in changed : entry = "EXECUTE_QUERY" /\ p[1] \in applied
 (* ... and then on every node, at that one index *)
-EveryNode == pc = "done" /\ changed # {} => changed = Nodes
+EveryNode == pc = "done" => \A p \in changed : \A n \in Nodes : <<n, p[2]>> \in changed
 Inv == NoChangeByRead /\ OnlyThroughLog /\ EveryNode
-TypeOK == pc \in {"recv", "local", "proposed", "done"} /\ entry \in {"none", "QUERY", "EXECUTE_QUERY"} /\ applied \subseteq Nodes /\ changed \subseteq Nodes
+TypeOK == pc \in {"recv", "local", "proposed", "done"} /\ entry \in {"none", "QUERY", "EXECUTE_QUERY"} /\ applied \subseteq Nodes
+          /\ changed \subseteq (Nodes \X Pos(c))
 
 (* ------------------------------------------------------------------ generator --------------    *)
-(* every case with the design's expectation, for replay on the real code                          *)
-Expect(x) == [class |-> x.class, ep |-> x.ep, level |-> x.level, role |-> x.role, up |-> x.up,
-              treated_ro |-> TreatedRO(x), store_ro |-> StoreRO(x.class), db_ro |-> DbRO(x.class), entry |-> Entry(x), served_by |-> ServedBy(x),
-              \* the design lets the text change the databases only here, and then it does on every node
-              may_change |-> ~TreatedRO(x) /\ Entry(x) = "EXECUTE_QUERY",
-              changes |-> Entry(x) = "EXECUTE_QUERY" /\ OnRW(x.class),
-              \* single statements sqlite itself calls read-write and that do write: the code must change (harness sanity)
-              must_change |-> ~IsQuery(x.ep) /\ x.class \in {"pragma-write", "ddl", "with-insert", "insert-returning", "rw-head-ro-tail", "pragma-optimize-all"}]
-Gen(u) == \A x \in {y \in Case : ValidCase(y)} : PrintT(<<"@@", ToJson(Expect(x))>>)
+(* every case with the design's expectation PER STATEMENT, for replay on the real code            *)
+SureWriters == {"write", "pragma-write", "ddl", "with-insert", "insert-returning", "rw-head-ro-tail", "pragma-optimize-all"}
+Expect(x) ==
+  LET r == Run(IF Entry(x) = "none" THEN ConnLocal ELSE ConnEntry(Entry(x)), x) IN
+  [ep |-> x.ep, stmts |-> x.stmts, tx |-> x.tx, level |-> x.level, role |-> x.role, up |-> x.up,
+   entry |-> Entry(x), served_by |-> ServedBy(x), nrw |-> NRW(x), nro |-> NRO(x),
+   per |-> [i \in Pos(x) |->
+     [class |-> x.stmts[i], treated_ro |-> TreatedRO(x, i), store_ro |-> StoreRO(x.stmts[i]), db_ro |-> DbRO(x.stmts[i]),
+      \* the design lets a statement change the databases only here, and then it does on every node
+      may_change |-> ~TreatedRO(x, i) /\ Entry(x) = "EXECUTE_QUERY",
+      runs |-> i \in r.ran, fails |-> i \in r.failed, changes |-> i \in r.hit,
+      \* single statements sqlite itself calls read-write and that do write: the code must change (harness sanity)
+      must_change |-> i \in r.hit /\ x.stmts[i] \in SureWriters]]]
+Gen(u) == \A x \in AllCases : PrintT(<<"@@", ToJson(Expect(x))>>)
 GenInv == Gen(pc)
 (* a one-state behaviour, so that GenInv is evaluated (and every case printed) exactly once       *)
-GenInit == /\ c = [class |-> "select", ep |-> "qpost", level |-> "none", role |-> "leader", up |-> FALSE]
+GenInit == /\ c = [ep |-> "qpost", stmts |-> <<"select">>, tx |-> FALSE, level |-> "none", role |-> "leader", up |-> FALSE]
            /\ pc = "done" /\ entry = "none" /\ applied = {} /\ changed = {}
 GenSpec == GenInit /\ [][UNCHANGED vars]_vars
 =============================================================================
